@@ -64,10 +64,13 @@ func runAdapterRaw(verif, root, fn, obl, label, kind string, vals map[string]str
 	ovf := filepath.Join(tmp, "overlay.json")
 	os.WriteFile(ovf, ob, 0o644)
 	mb, _ := json.Marshal(vals)
-	cmd := exec.Command("go", "test", "-overlay", ovf, "-vet=off", "-count=1", "-timeout", "60s", "-v", "-run", "TestGovcReplay", "./"+dir)
+	cmd := exec.Command("go", "test", "-overlay", ovf, "-vet=off", "-count=1", "-timeout", "120s", "-v", "-run", "TestGovcReplay", "./"+dir)
 	cmd.Dir = root
 	cmd.Env = append(os.Environ(), "GOFLAGS=-mod=mod", "GOPROXY=off", "GOSUMDB=off", "GOTOOLCHAIN=local",
 		"GOVC_MODEL="+string(mb), "GOVC_OBLIGATION="+obl, "GOVC_LABEL="+label, "GOVC_KIND="+kind)
+	if kind == "thorough" {
+		cmd.Env = append(cmd.Env, "GOVC_ALL=1")
+	}
 	out, _ := cmd.CombinedOutput()
 	s := string(out)
 	return strings.Contains(s, "REPLAY-CONFIRMED"), firstLines(s, 40)
